@@ -4,7 +4,7 @@
 import json, os, subprocess, sys, time, shutil
 VERIF = os.path.dirname(os.path.dirname(os.path.abspath(__file__)))
 CLONE = os.environ.get("CAMPAIGN_CLONE", "/var/tmp/asefile-seedrepo")
-ALT = {"C01-A": ["C11"], "C03-B": ["C02"], "C17-B": ["C17", "C02"], "C09-B": ["C02"], "C02-B": ["C09"], "C05-A": ["C11"], "C07-A": ["C02"], "C07-B": ["C15"], "C16-A": ["C08"], "C16-B": ["C11"], "C19-A": ["C02"], "C19-B": ["C06"], "C13-B": ["C13"], "C12-A": ["C04"]}
+ALT = {"C01-A": ["C11"], "C03-B": ["C02"], "C17-B": ["C17", "C02"], "C09-B": ["C02"], "C02-B": ["C09"], "C05-A": ["C11"], "C07-A": ["C02"], "C07-B": ["C15"], "C16-A": ["C08"], "C16-B": ["C11"], "C19-A": ["C02"], "C19-B": ["C06"], "C13-B": ["C13"], "C12-A": ["C04"], "C12-E": ["C06", "C05"], "C14-E": ["C13"], "C11-D": ["C01"]}
 
 def sh(cmd, **kw):
     return subprocess.run(cmd, stdout=subprocess.PIPE, stderr=subprocess.STDOUT, text=True, **kw)
